@@ -78,6 +78,7 @@ def check_spaces(orc):
         if desc_of(flat.get_action(i)) != desc_of(flat.actions[i]):
             orc.fail("C11.flat", "get_action(i) is not actions[i]", index=i)
     orc.probe("flat_enumeration")
+    sim.boot_flat_map = [desc_of(a) for a in flat.actions]
     # ---- parameterised ---------------------------------------------------
     pspace = env.action_space if not sim.table.flat else \
         ParameterisedActionSpace(scen)
@@ -153,3 +154,28 @@ def check_spaces(orc):
     if any(cfg.subnets[s] < max(cfg.subnets[1:])
            for s in range(1, len(cfg.subnets))):
         orc.probe("host_index_wraps")
+
+
+def check_rebuild(orc):
+    """The index -> action map of a space built *now* from the same scenario
+    object equals the map built before any episode was played."""
+    sim = orc.sim
+    from nasim.envs.action import FlatActionSpace
+    boot = getattr(sim, "boot_flat_map", None)
+    if boot is None:
+        return
+    now = [desc_of(a) for a in FlatActionSpace(sim.scenario).actions]
+    if now != boot:
+        i = next((k for k, (a, b) in enumerate(zip(now, boot)) if a != b),
+                 min(len(now), len(boot)))
+        orc.fail("C11.flat", "a flat action space built from the same "
+                 "scenario after some episodes has a different index -> "
+                 "action map than one built before", first_difference=i,
+                 now=list(map(str, now[i])) if i < len(now) else None,
+                 before=list(map(str, boot[i])) if i < len(boot) else None)
+    if sim.table.flat:
+        live = [desc_of(a) for a in sim.env.action_space.actions]
+        if live != boot:
+            orc.fail("C11.flat", "the environment's own flat action list "
+                     "changed during the run")
+    orc.probe("rebuild_compared")
